@@ -202,6 +202,13 @@ func buildNatives() map[string]nativeFn {
 		}
 		return in.C.False
 	}
+	// the same operations at the other integer widths
+	for _, suf := range []string{"Int64", "Uint32", "Uint64", "Uintptr"} {
+		m["sync/atomic.Add"+suf] = m["sync/atomic.AddInt32"]
+		m["sync/atomic.Load"+suf] = m["sync/atomic.LoadInt32"]
+		m["sync/atomic.Store"+suf] = m["sync/atomic.StoreInt32"]
+		m["sync/atomic.CompareAndSwap"+suf] = m["sync/atomic.CompareAndSwapInt32"]
+	}
 	rt("AtomicOps", func(in *Interp, fn *ssa.Function, a []Value) Value {
 		return in.C.Const(64, uint64(in.P.atomicOps))
 	})
